@@ -94,7 +94,7 @@ class C19(Monitor):
         self.adds += len(by["add_request_event"])
         self.cancels += len(by["cancel_request_event"])
         # --- one-to-one with the state changes
-        addev = {d["request_id"] for d in by["add_request_event"]}
+        addev = {d["request_id"] for d in by["add_request_event"]} | set(ctx.injected_now)
         removed = (set(prev.requests) | addev) - set(s.requests)
         evs = [d["request_id"] for d in by["pickup_request_event"]] + [d["request_id"] for d in by["cancel_request_event"]]
         if sorted(evs) != sorted(removed):
